@@ -273,3 +273,77 @@ def selftest():
         back = hsl_to_rgb_exact(h, s, l)
         if tuple(back) != tuple(F(c) for c in rgb):
             raise HarnessError(f"O-CSS: exact HSL round trip {rgb} -> {back}")
+
+
+# ---- fast float path (bulk enumeration) ------------------------------------------------------------
+# Decides the common output shapes without Fractions; anything it cannot decide safely (unknown shape,
+# channel within 1e-6 of a rounding tie) is handed to the exact parser above.
+
+_HEX6_RE = re.compile(r"#([0-9a-fA-F]{2})([0-9a-fA-F]{2})([0-9a-fA-F]{2})\Z")
+_RGBI_RE = re.compile(r"[rR][gG][bB]\([ \t\n\r\f]*([+-]?\d+)[ \t\n\r\f]*,[ \t\n\r\f]*([+-]?\d+)[ \t\n\r\f]*,[ \t\n\r\f]*([+-]?\d+)[ \t\n\r\f]*\)\Z")
+_PLAIN = r"[+-]?(?:\d+\.\d+|\.\d+|\d+)"
+_HSL_RE = re.compile(r"[hH][sS][lL]\([ \t\n\r\f]*(" + _PLAIN + r")[ \t\n\r\f]*,[ \t\n\r\f]*(" + _PLAIN + r")%[ \t\n\r\f]*,[ \t\n\r\f]*(" + _PLAIN + r")%[ \t\n\r\f]*\)\Z")
+
+
+def _hsl_float(h, s, l):
+    h = (h % 360.0) / 360.0
+    m2 = l * (s + 1.0) if l <= 0.5 else l + s - l * s
+    m1 = l * 2.0 - m2
+
+    def hue(hh):
+        if hh < 0:
+            hh += 1.0
+        if hh > 1:
+            hh -= 1.0
+        if hh * 6.0 < 1.0:
+            return m1 + (m2 - m1) * hh * 6.0
+        if hh * 2.0 < 1.0:
+            return m2
+        if hh * 3.0 < 2.0:
+            return m1 + (m2 - m1) * (2.0 / 3.0 - hh) * 6.0
+        return m1
+
+    return (255.0 * hue(h + 1.0 / 3.0), 255.0 * hue(h), 255.0 * hue(h - 1.0 / 3.0))
+
+
+def read_fast(s):
+    """Set of 8-bit triples a conforming consumer may read from an opaque CSS colour string."""
+    m = _HEX6_RE.match(s)
+    if m:
+        return {(int(m.group(1), 16), int(m.group(2), 16), int(m.group(3), 16))}
+    m = _RGBI_RE.match(s)
+    if m:
+        return {tuple(min(255, max(0, int(g))) for g in m.groups())}
+    m = _HSL_RE.match(s)
+    if m:
+        h, sp, lp = float(m.group(1)), float(m.group(2)), float(m.group(3))
+        sat = min(1.0, max(0.0, sp / 100.0))
+        lig = min(1.0, max(0.0, lp / 100.0))
+        pre = _hsl_float(h, sat, lig)
+        out = []
+        for v in pre:
+            fl = int(v // 1)
+            fr = v - fl
+            if abs(fr - 0.5) < 1e-6:
+                return read_rgb_set(s)
+            out.append(fl + (1 if fr > 0.5 else 0))
+        # sector boundaries: the float path may pick the other branch than exact arithmetic, but both
+        # branches agree there (the piecewise function is continuous), so no special handling is needed.
+        return {tuple(min(255, max(0, v)) for v in out)}
+    return read_rgb_set(s)
+
+
+def selftest_fast():
+    import itertools
+
+    for s in ("#00ff7f", "rgb(1, 2, 3)", "RGB( 300 ,+4,-5 )", "hsl(0, 0%, 50%)", "hsl(240.0, 100.00000000000036%, 0.19607843137254902%)",
+              "hsl(11.566265060240962, 100.0%, 67.45098039215686%)", "hsl(359.9, 12.5%, 40%)", "hsl(-30, 50%, 50%)", "hsl(90,100%,50%)"):
+        if read_fast(s) != read_rgb_set(s):
+            raise HarnessError(f"O-CSS fast path disagrees with the exact path on {s!r}: {read_fast(s)} vs {read_rgb_set(s)}")
+    k = 0
+    for r, g, b in itertools.product(range(0, 256, 37), range(0, 256, 41), range(0, 256, 43)):
+        h, sat, lig = rgb_to_hsl_exact((r, g, b))
+        s = f"hsl({float(h)!r}, {float(sat * 100)!r}%, {float(lig * 100)!r}%)"
+        if read_fast(s) != read_rgb_set(s):
+            raise HarnessError(f"O-CSS fast path disagrees with the exact path on {s!r}")
+        k += 1
